@@ -122,3 +122,140 @@ func callKVBest(args json.RawMessage) (interface{}, error) {
 	}
 	return out, nil
 }
+
+func init() {
+	calls["kv.range"] = callKVRange
+	calls["kv.deleterange"] = callKVDeleteRange
+}
+
+type kvRangeArgs struct {
+	Data string `json:"data"`
+	UUID string `json:"uuid"`
+	Lo   string `json:"lo"`
+	Hi   string `json:"hi"`
+}
+
+func kvCtx(a kvRangeArgs) (*datastore.VersionedCtx, storage.OrderedKeyValueDB, storage.TKey, storage.TKey, error) {
+	d, err := datastore.GetDataByUUIDName(dvid.UUID(a.UUID), dvid.InstanceName(a.Data))
+	if err != nil {
+		return nil, nil, nil, nil, err
+	}
+	v, err := datastore.VersionFromUUID(dvid.UUID(a.UUID))
+	if err != nil {
+		return nil, nil, nil, nil, err
+	}
+	db, err := datastore.GetOrderedKeyValueDB(d)
+	if err != nil {
+		return nil, nil, nil, nil, err
+	}
+	// keyvalue datatype TKey: class 177? use the datatype's own constructor semantics: class byte + key + 0
+	lo := storage.NewTKey(kvKeyClass, append([]byte(a.Lo), 0))
+	hi := storage.NewTKey(kvKeyClass, append([]byte(a.Hi), 0))
+	return datastore.NewVersionedCtx(d, v), db, lo, hi, nil
+}
+
+// keyvalue.keyStandard
+const kvKeyClass storage.TKeyClass = 177
+
+type kvPair struct {
+	K string `json:"k"`
+	V string `json:"v"`
+}
+
+func decodeKVKey(tk storage.TKey) string {
+	b, err := tk.ClassBytes(kvKeyClass)
+	if err != nil || len(b) == 0 {
+		return "?" + string(tk)
+	}
+	return string(b[:len(b)-1])
+}
+
+// callKVRange runs the four ordered-range entry points of the store on one interval
+// and returns what each yields (values deserialized).
+func callKVRange(args json.RawMessage) (interface{}, error) {
+	var a kvRangeArgs
+	if err := json.Unmarshal(args, &a); err != nil {
+		return nil, err
+	}
+	ctx, db, lo, hi, err := kvCtx(a)
+	if err != nil {
+		return nil, err
+	}
+	type result struct {
+		GetRange    []kvPair `json:"getrange"`
+		GetRangeErr string   `json:"getrange_err,omitempty"`
+		Keys        []string `json:"keys"`
+		KeysErr     string   `json:"keys_err,omitempty"`
+		Sent        []string `json:"sent"`
+		SentErr     string   `json:"sent_err,omitempty"`
+		Proc        []kvPair `json:"proc"`
+		ProcErr     string   `json:"proc_err,omitempty"`
+	}
+	var res result
+	tkvs, err := db.GetRange(ctx, lo, hi)
+	if err != nil {
+		res.GetRangeErr = err.Error()
+	}
+	for _, tkv := range tkvs {
+		val, _, derr := dvid.DeserializeData(tkv.V, true)
+		if derr != nil {
+			val = []byte("DESERIALIZE-ERROR")
+		}
+		res.GetRange = append(res.GetRange, kvPair{decodeKVKey(tkv.K), string(val)})
+	}
+	tks, err := db.KeysInRange(ctx, lo, hi)
+	if err != nil {
+		res.KeysErr = err.Error()
+	}
+	for _, tk := range tks {
+		res.Keys = append(res.Keys, decodeKVKey(tk))
+	}
+	ch := make(storage.KeyChan)
+	done := make(chan struct{})
+	go func() {
+		for k := range ch {
+			if k == nil {
+				break
+			}
+			tk, err := storage.TKeyFromKey(k)
+			if err != nil {
+				res.Sent = append(res.Sent, "?")
+				continue
+			}
+			res.Sent = append(res.Sent, decodeKVKey(tk))
+		}
+		close(done)
+	}()
+	if err := db.SendKeysInRange(ctx, lo, hi, ch); err != nil {
+		res.SentErr = err.Error()
+		close(ch)
+	}
+	<-done
+	err = db.ProcessRange(ctx, lo, hi, &storage.ChunkOp{}, func(c *storage.Chunk) error {
+		if c == nil || c.TKeyValue == nil {
+			return nil
+		}
+		val, _, derr := dvid.DeserializeData(c.TKeyValue.V, true)
+		if derr != nil {
+			val = []byte("DESERIALIZE-ERROR")
+		}
+		res.Proc = append(res.Proc, kvPair{decodeKVKey(c.TKeyValue.K), string(val)})
+		return nil
+	})
+	if err != nil {
+		res.ProcErr = err.Error()
+	}
+	return res, nil
+}
+
+func callKVDeleteRange(args json.RawMessage) (interface{}, error) {
+	var a kvRangeArgs
+	if err := json.Unmarshal(args, &a); err != nil {
+		return nil, err
+	}
+	ctx, db, lo, hi, err := kvCtx(a)
+	if err != nil {
+		return nil, err
+	}
+	return nil, db.DeleteRange(ctx, lo, hi)
+}
